@@ -207,6 +207,7 @@ type State struct {
 	decided  map[string]bool
 	events   []string
 	shared   int
+	model    map[string]uint64 // an assignment of the nd variables satisfying pc (nil if unknown)
 	regions  map[string]*Term // known-finding regions registered on this path (copy on write)
 	obs      []*Term
 	asserts  []assertRec
@@ -239,6 +240,7 @@ func (s *State) clone() *State {
 	n.timers = append([]timerEnt(nil), s.timers...)
 	n.settle = s.settle
 	n.regions = s.regions
+	n.model = s.model
 	n.obs = append([]*Term(nil), s.obs...)
 	n.asserts = append([]assertRec(nil), s.asserts...)
 	n.reached = append([]string(nil), s.reached...)
